@@ -525,6 +525,75 @@ def rule_r9(prog, res) -> None:
         res.ok("C15.R9", "no run-time type unions", "no isinstance(…, get_args(alias)) in the package", nontrivial=False)
 
 
+def _names(e: ast.AST, name: str) -> bool:
+    return any(isinstance(n, ast.Name) and n.id == name for n in ast.walk(e))
+
+
+def rule_r10(prog, res) -> None:
+    """every binning method works for every accepted cosmology and every valid range: at each numerical inversion
+    `z_at_value(f, target)` (a) the target is of the kind `f` returns — a cosmology is an astropy model (distances
+    with units) or a custom one (plain Mpc values), so a unit attached to / stripped from the target alone makes the
+    inversion fail for one of the two kinds; (b) the inversion is not evaluated at the images of the requested
+    limits themselves: it is partial at the lower bracket limit (raises for a lower redshift limit of zero) and the
+    outer edges are given anyway. Decided on the symbolic value of the target on every path."""
+    from .. import symx
+
+    sites = [(fi, c) for fi in prog.funcs for c in calls_in(fi) if (dotted(c.func) or "").split(".")[-1] == "z_at_value" and len(c.args) >= 2]
+    if not sites:
+        raise AnalysisError("C15.R10: no numerical inversion (z_at_value) found — the comoving binning method is not recognised")
+    for fi in {f for f, _ in sites}:
+        res.touch(fi)
+        params = [q for q in fi.param_names() if q not in ("self", "cls")]
+        for p in symx.explore(prog, fi, inline=symx.inline_private_helpers(prog)):
+            for ev in p.calls():
+                if (dotted(ev.expr.func) or "").split(".")[-1] != "z_at_value" or len(ev.expr.args) < 2:
+                    continue
+                f, target = ev.expr.args[0], symx.strip_wrappers(ev.expr.args[1])
+                ftxt = unparse(f)
+                raw_method = isinstance(f, ast.Attribute)  # a bound method of the cosmology, handed over as it is
+                # (a) kind of the target
+                changed = None
+                for x in ast.walk(target):
+                    if isinstance(x, ast.BinOp) and isinstance(x.op, (ast.Mult, ast.LShift)):
+                        for side in (x.left, x.right):
+                            d = dotted(side) or ""
+                            if d.split(".")[0] in ("units", "u") and len(d.split(".")) == 2:
+                                changed = f"a unit is attached to the target ({unparse(x)[-40:]})"
+                    if isinstance(x, ast.Call) and (dotted(x.func) or "").split(".")[-1] == "Quantity":
+                        changed = "the target is converted to a Quantity"
+                    if isinstance(x, ast.Attribute) and x.attr in ("value", "to_value") and ftxt in unparse(x.value):
+                        changed = "the unit is stripped from the target"
+                site = res.site(fi, f"z_at_value[{p.cond_text()[:40]}]")
+                if changed and raw_method:
+                    res.violation(
+                        "C15.R10",
+                        fi,
+                        ev.node,
+                        f"{changed} while the inverted function {ftxt} is handed over unchanged: for one kind of cosmology (astropy model with units / custom cosmology with plain values) "
+                        "target and function values cannot be compared and the binning method raises instead of producing the requested bins",
+                        key_extra=f"inversion-kind-mismatch-{fi.qualname}",
+                    )
+                else:
+                    res.ok("C15.R10", site + " kind", "target and function values are of the same kind")
+                # (b) inversion at the limits
+                handled = any(
+                    isinstance(t, ast.Try) and any(n_ is ev.node for b in t.body for n_ in ast.walk(b)) and t.handlers for t in ast.walk(fi.node) if isinstance(t, ast.Try)
+                )
+                if isinstance(target, ast.Call) and (dotted(target.func) or "").endswith("linspace") and len(target.args) >= 2 and not handled:
+                    lo, hi = target.args[0], target.args[1]
+                    if ftxt in unparse(lo) and ftxt in unparse(hi) and len(params) >= 2 and _names(lo, params[0]) and _names(hi, params[1]):
+                        res.violation(
+                            "C15.R10",
+                            fi,
+                            ev.node,
+                            f"the inversion is evaluated on the whole grid {unparse(target)[:70]}…, including the images of the limits {params[0]}/{params[1]} themselves: z_at_value raises at its lower "
+                            f"bracket limit, so a valid range starting at redshift 0 is rejected although the outer edges are known",
+                            key_extra=f"inversion-at-limits-{fi.qualname}",
+                        )
+                        continue
+                res.ok("C15.R10", site + " range", "the inversion is not evaluated at the given limits")
+
+
 RULES = [
     ("C15.R1", rule_r1, QUICK),
     ("C15.R2", rule_r2, QUICK),
@@ -535,4 +604,5 @@ RULES = [
     ("C15.R7", rule_r7, QUICK),
     ("C15.R8", rule_r8, QUICK),
     ("C15.R9", rule_r9, QUICK),
+    ("C15.R10", rule_r10, QUICK),
 ]
